@@ -108,7 +108,11 @@ def record(repo_src):
     h = scan(repo_src)
     sel = trusted_keys(h)
     doc = {"note": "token-text hashes of trusted (unverified) code; regenerate with tools/trusted_text.py record after reviewing a change",
-           "entries": {k: {"sha": h[k], "properties": sel[k][0], "why": sel[k][1]} for k in sorted(sel)}}
+           "entries": {k: {"sha": h[k], "properties": sel[k][0], "why": sel[k][1]} for k in sorted(sel)},
+           # every function that exists in the non-test sources (names only): a function that is NOT in this
+           # inventory is new code no contract and no review has seen (e.g. an override of a provided
+           # iterator method, a hand-written Clone) - see new_functions()
+           "inventory": sorted(k for k in h if "#unsafe" not in k)}
     json.dump(doc, open(STORE, "w"), indent=1)
     return doc
 
@@ -129,6 +133,19 @@ def check(repo_src, pid=None):
     for k, (props, why) in cur.items():
         if k not in doc["entries"] and (not pid or (set(pid if isinstance(pid, (list, tuple)) else [pid]) & set(props))):
             out.append((k, why, "new piece of trusted code"))
+    return out
+
+
+def new_functions(repo_src):
+    """-> list of (file, container, name) present now but not in the recorded inventory"""
+    doc = json.load(open(STORE))
+    inv = set(doc.get("inventory", []))
+    out = []
+    for k in scan(repo_src):
+        if "#unsafe" in k or k in inv:
+            continue
+        f, c, n = k.split("|", 2)
+        out.append((f, c, n))
     return out
 
 
